@@ -392,7 +392,7 @@ func (m *Model) lingerSig(s *snapshot, l int) (string, int) {
 
 // audit compares the real structure with the model after call number step.
 // before / after are the snapshots around the call; op is the call (nil for the initial audit).
-func (m *Model) audit(w *World, step int, op *Op, callErr error, before, after *snapshot, rootBefore int, highBefore *bft.ProposalNode) *Finding {
+func (m *Model) audit(w *World, step int, op *Op, newly bool, callErr error, before, after *snapshot, rootBefore int, highBefore *bft.ProposalNode) *Finding {
 	c := m.c
 	t := w.tree
 	fail := func(sig, detail string) *Finding { return &Finding{Sig: sig, Detail: detail, Step: step} }
@@ -513,7 +513,7 @@ func (m *Model) audit(w *World, step int, op *Op, callErr error, before, after *
 		m.stats["info.highqc-outside-tree-after-commit"]++
 	}
 	m.highView = hv
-	if f := m.markerChain(w, step); f != nil {
+	if f := m.markerChain(w, step, after); f != nil {
 		return f
 	}
 	// ---- explicit rollback
@@ -534,7 +534,7 @@ func (m *Model) audit(w *World, step int, op *Op, callErr error, before, after *
 		cert := -1
 		switch op.K {
 		case "confirm", "propose":
-			if m.arr[op.N].at == step { // newly accepted by this call
+			if newly { // newly accepted by this call
 				cert = c.Par[op.N]
 			}
 		case "justify":
@@ -566,7 +566,7 @@ func (m *Model) audit(w *World, step int, op *Op, callErr error, before, after *
 	if pv > m.pmView {
 		m.stats["pacemaker.advanced"]++
 	}
-	if op != nil && op.K == "propose" && m.arr[op.N].at == step && pv < c.View[c.Par[op.N]]+1 {
+	if op != nil && op.K == "propose" && newly && pv < c.View[c.Par[op.N]]+1 {
 		return fail("qctree|pacemaker|not-advanced-by-accepted-proposal", fmt.Sprintf("accepted %s with justify view %d, pacemaker view %d", name(op.N), c.View[c.Par[op.N]], pv))
 	}
 	m.pmView = pv
@@ -576,56 +576,44 @@ func (m *Model) audit(w *World, step int, op *Op, callErr error, before, after *
 // quorumOthers: with 4 validators, 2 distinct validators other than the collecting node.
 const quorumOthers = 2
 
-// markerChain: Generic / Locked / Commit, whenever set, are the successive ancestors of HighQC.
+// markerChain: Generic / Locked / Commit, whenever set, are the successive ancestors of HighQC
+// (parent, grand-parent, great-grand-parent by the proposals' own parent links).
 // One relaxation, taken from the real initialiser (InitQCTree starts with CommitQC = Root =
 // HighQC): a CommitQC equal to the current root is accepted - the root IS the last committed
 // proposal.
-func (m *Model) markerChain(w *World, step int) *Finding {
+func (m *Model) markerChain(w *World, step int, after *snapshot) *Finding {
 	t := w.tree
 	c := m.c
-	fail := func(which string, detail string) *Finding {
-		return &Finding{Sig: "qctree|markers-not-successive-ancestors|" + which, Detail: detail + " [" + renderState(w) + "]", Step: step}
-	}
-	lab := func(n *bft.ProposalNode) int {
-		if n == nil {
-			return -2
+	h, _ := labelOf(t.HighQC)
+	names := []string{"", "GenericQC", "LockedQC", "CommitQC"}
+	for k, mk := range []*bft.ProposalNode{nil, t.GenericQC, t.LockedQC, t.CommitQC} {
+		if k == 0 || mk == nil {
+			continue
 		}
-		l, ok := labelOf(n)
+		l, ok := labelOf(mk)
 		if !ok {
-			return -3
+			return &Finding{Sig: "qctree|markers-not-successive-ancestors|unknown-node", Detail: names[k] + " is a node that was never delivered", Step: step}
 		}
-		return l
-	}
-	h, g, l, cm := lab(t.HighQC), lab(t.GenericQC), lab(t.LockedQC), lab(t.CommitQC)
-	if g == -3 || l == -3 || cm == -3 {
-		return fail("unknown-node", "a marker is a node that was never delivered")
-	}
-	if g != -2 {
-		m.stats["markers.generic-set"]++
-		if g != c.Par[h] {
-			return fail("generic-is-not-the-parent-of-highqc", fmt.Sprintf("HighQC=%s (parent %s), GenericQC=%s", name(h), pname(c, h), name(g)))
+		m.stats["markers."+names[k]+"-set"]++
+		want := c.anc(h, k)
+		if l == want {
+			if k == 3 {
+				m.stats["markers.full-chain"]++
+			}
+			continue
 		}
-	}
-	if l != -2 {
-		m.stats["markers.locked-set"]++
-		if g == -2 || l != c.Par[g] {
-			return fail("locked-is-not-the-grandparent-of-highqc", fmt.Sprintf("HighQC=%s GenericQC=%s LockedQC=%s (grand-parent of HighQC is %s)", name(h), mark(t.GenericQC), name(l), aname(c, h, 2)))
+		if k == 3 && l == m.root {
+			continue
 		}
-	}
-	if cm != -2 {
-		m.stats["markers.commit-set"]++
-		if cm == m.root {
-			return nil
+		detail := fmt.Sprintf("HighQC=%s, its ancestor number %d is %s, %s=%s [%s]", name(h), k, aname(c, h, k), names[k], name(l), renderState(w))
+		if _, in := after.tree[want]; want >= 0 && in {
+			return &Finding{Sig: "qctree|markers-not-successive-ancestors|marker-differs-from-the-ancestor-stored-in-the-tree", Detail: detail, Step: step}
 		}
-		if l == -2 || cm != c.Par[l] {
-			return fail("commit-is-not-the-great-grandparent-of-highqc", fmt.Sprintf("HighQC=%s LockedQC=%s CommitQC=%s (great-grand-parent of HighQC is %s, root is %s)", name(h), mark(t.LockedQC), name(cm), aname(c, h, 3), name(m.root)))
-		}
-		m.stats["markers.full-chain"]++
+		return &Finding{Sig: "qctree|markers-not-successive-ancestors|stale-marker-kept-when-highqc-has-too-few-ancestors-in-the-tree", Detail: detail, Step: step}
 	}
 	return nil
 }
 
-func pname(c *Case, l int) string { return aname(c, l, 1) }
 func aname(c *Case, l, k int) string {
 	a := c.anc(l, k)
 	if a < 0 {
